@@ -312,7 +312,7 @@ def _finite(c):
 
 # ---- order independence and --config --------------------------------------------------------------------------------
 ORDER_POOL = [("-m", "mae"), ("-x", "time"), ("-agg", "max"), ("-o", "0,24"), ("-l", "<id0>,<id2>"), ("-lx", "<id2>"), ("-d", "<d0>:<d2>"),
-              ("-obsrange", "0.5,2"), ("-leg", "run#1,b"), ("-acc",), ("-type", "csv"), ("-T", "24"), ("-Tagg", "max"), ("-c", "<clim>"), ("-tod", "0,6"),
+              ("-obsrange", "0.5,2"), ("-leg", "Tom's#1,b"), ("-acc",), ("-type", "csv"), ("-T", "24"), ("-Tagg", "max"), ("-c", "<clim>"), ("-tod", "0,6"),
               ("-latrange", "40,42.5"), ("-b", "below"), ("-r", "2")]
 
 
